@@ -56,10 +56,16 @@ def base_problem(alg: str, q: dict):
     else:
         Xd = rng.rand(*shape)
         Xd[rng.rand(*shape) < 0.35] = 0.0
-        Xd = np.round(Xd * 8) / 8            # dyadic data: scaling by 2, 1/4 exact
+        Xd = np.round(Xd * 8)                # integer-valued data: exact under scaling by 2, 1/4; storable as int64
     r2 = np.random.RandomState(q["dseed"] + 17)
     if alg in ("hosvd", "tucker_als"):
-        ranks = [min(s, 2) for s in shape]
+        # unequal ranks, but none larger than the product of the others (beyond that the extra factor columns are
+        # arbitrary null-space vectors of an iterative eigensolver and the run is not reproducible even with itself)
+        N_ = len(shape)
+        pat = {2: [2, 2], 3: [[1, 2, 2], [2, 1, 2], [2, 2, 1]][q["dseed"] % 3], 4: [[1, 2, 2, 1], [2, 1, 1, 2]][q["dseed"] % 2]}.get(N_, [2] * N_)
+        ranks = [min(s, r) for s, r in zip(shape, pat)]
+        if any(r > int(np.prod(ranks)) // r for r in ranks):
+            ranks = [min(s, 2) for s in shape]
         start = [r2.rand(s, k) for s, k in zip(shape, ranks)]
     else:
         ranks = R
@@ -76,6 +82,9 @@ def run(alg: str, q: dict, p: dict):
     inv = list(np.argsort(perm))
     c = p["scale"][0] / p["scale"][1]
     Y = np.transpose(Xd * c, perm).copy()
+    if p.get("dtype", "float") == "int":
+        assert np.all(Y == np.round(Y))
+        Y = Y.astype(np.int64)
     X = ttb.tensor(Y)
     if p["holder"] == "sparse":
         X = X.to_sptensor()
@@ -122,7 +131,7 @@ def problem_trace(b: dict) -> dict:
     alg, q = b["alg"], b["q"]
     N = len(q["shape"])
     evs = [{"op": "problem", "args": {"alg": alg, "N": N}}]
-    base = {"holder": "dense", "printitn": 0, "seed": 0, "scale": [1, 1], "perm": list(range(N)), "start": b["start"]}
+    base = {"holder": "dense", "printitn": 0, "seed": 0, "scale": [1, 1], "perm": list(range(N)), "start": b["start"], "dtype": "float"}
     ref = None
     for p in [base] + b["pres"]:
         try:
@@ -196,14 +205,15 @@ def main(tier: str) -> int:
             for start in ("given", "random"):
                 pres = [r["pres"] for r in recs if r["alg"] == alg and r["pres"]["start"] == start]
                 pres = [p for p in pres if not (p["holder"] == "dense" and p["printitn"] == 0 and p["scale"] == [1, 1]
-                                                and p["perm"] == list(range(N)))]
+                                                and p["perm"] == list(range(N)) and p["dtype"] == "float")]
                 # a rerun in the base presentation with the same seed is part of every problem
                 if not pres:
                     continue
                 if N == 4 and not big:          # quick tier: a sample of the 23 relabellings of four modes
                     nonid = [p for p in pres if p["perm"] != list(range(N))]
                     pres = [p for p in pres if p["perm"] == list(range(N))] + nonid[sd % 5::6]
-                pres = [{"holder": "dense", "printitn": 0, "seed": 0, "scale": [1, 1], "perm": list(range(N)), "start": start}] + pres
+                pres = [{"holder": "dense", "printitn": 0, "seed": 0, "scale": [1, 1], "perm": list(range(N)), "start": start,
+                         "dtype": "float"}] + pres
                 for si, shape in enumerate(shapes[N]):
                     for rep in range(2 if big else 1):
                         for mi in ((1, 2, 3) if big else (2, 3)):
